@@ -1,6 +1,8 @@
 #!/bin/bash
-# usage: try_patch.sh <patch.diff> <prop>...   — applies a change to /repo, runs the quick checks, undoes it
-P=$1; shift
-git -C /repo apply "$P" || { echo "patch does not apply"; exit 3; }
-cd /verif; for p in "$@"; do ./check $p 2>&1 | grep -v "^  rule=" | grep -v KNOWN | cut -c1-400; done
-git -C /repo checkout -- .
+# usage: try_patch.sh <patch.diff> <prop>...   — applies a change to a scratch COPY of /repo (never /repo itself) and runs the quick checks on it
+P=$(readlink -f "$1"); shift
+T=$(mktemp -d /var/tmp/sverif-try-XXXXXX)
+rsync -a --exclude target --exclude .git /repo/ $T/
+( cd $T && patch -p1 -s -f --no-backup-if-mismatch -i "$P" ) || { echo "patch does not apply"; rm -rf $T; exit 3; }
+cd /verif; for p in "$@"; do ./check $p --repo $T 2>&1 | grep -v "^  rule=" | grep -v KNOWN | cut -c1-400; done
+rm -rf $T
